@@ -61,12 +61,12 @@ func vfc09Limits(rng *rand.Rand, n int) []uint64 {
 func TestVF_C09(t *testing.T) {
 	r := vfkit.Start(t, "C09")
 	defer r.Finish()
-	r.Rule("case = one generated fixture (1..3 raw blocks incl. replica/overlapping blocks) served by one BucketStore (index cache none/large, small series-size estimate so that lazy expanded postings trigger) x generated requests. " +
+	r.Rule("case = one generated fixture (1..3 raw blocks incl. replica/overlapping blocks) served by one BucketStore (index cache none/large, small series-size estimate so that lazy expanded postings trigger) x generated requests (40% series-only, SkipChunks=true). " +
 		"Each request is first answered without limits (true N_series, N_chunks of the merged answer), then re-issued with series and/or chunk limits drawn from {N-1, N, N+1, 1, 2N, N/2}; lazy-postings settings and series batch size (1,2,10000) are drawn per request. " +
 		"oracle: a successful limited call returns at most limit series/chunks and exactly the unlimited answer; if N exceeds a limit the call must fail and the gRPC code must be ResourceExhausted. Failing although N <= limit is counted, not flagged " +
 		"(limiters reserve per block before merging and, on the eager path, before time filtering). evaluation = one limited call; distinct/non-trivial = limited call on a request with N_series > 0")
 	nFix := r.N(6, 80)
-	nReq := r.N(40, 100)
+	nReq := r.N(34, 100)
 	r.Require(int64(nFix*nReq*2), nFix*nReq/2)
 	r.Assume("limit 0 means unlimited (documented); the unlimited answer of the same store instance is the true answer (its correctness is C10's subject)")
 	base := t.TempDir()
@@ -87,8 +87,8 @@ func vfc09RunFixture(t *testing.T, r *vfkit.Run, c int, rng *rand.Rand, nReq int
 	defer func() { _ = os.RemoveAll(dir) }()
 	fx := vfc07NewFixture(t, rng, dir, vfc07Opts{maxBlocks: 3, maxSeries: 100, slots: 36, hist: false})
 	cfg := vfc07StoreCfg{cache: []string{"none", "large"}[rng.Intn(2)], estSeries: []uint64{8, 16, 48, 0}[rng.Intn(4)], sampling: []int{1, 32}[rng.Intn(2)], hints: rng.Intn(2) == 0}
-	if c%2 == 0 {
-		// every second fixture is set up so that lazy posting expansion can actually trigger on the limited
+	if c%3 != 0 {
+		// two of three fixtures are set up so that lazy posting expansion can actually trigger on the limited
 		// calls: no expanded-postings cache (the unlimited call would fill it) and a small series size estimate
 		cfg.cache, cfg.estSeries = "none", 8
 	}
@@ -103,13 +103,15 @@ func vfc09RunFixture(t *testing.T, r *vfkit.Run, c int, rng *rand.Rand, nReq int
 
 	for q := 0; q < nReq; q++ {
 		var ms []vfc07M
-		if rng.Intn(2) == 0 {
+		if k := rng.Intn(10); k < 4 {
+			ms = vfc07GenMatchersPositive(rng, fx.u)
+		} else if k < 6 {
 			ms = vfc07GenMatchersMulti(rng, fx.u, 0.05)
 		} else {
 			ms = vfc07GenMatchers(rng, fx.u, 0.08)
 		}
 		mint, maxt := fx.vfc07Range(rng)
-		skip := rng.Intn(5) == 0
+		skip := rng.Intn(5) < 2 // series-only requests are a full request dimension: same limits, no chunks
 		req := &storepb.SeriesRequest{MinTime: mint, MaxTime: maxt, Matchers: vfc07Proto(ms), SkipChunks: skip}
 		setLimits(0, 0)
 		// one draw of the request-time knobs per request: the unlimited answer and the limited calls
@@ -129,10 +131,21 @@ func vfc09RunFixture(t *testing.T, r *vfkit.Run, c int, rng *rand.Rand, nReq int
 		cl := vfc09Limits(rng, truth.chunks)
 		type probe struct{ s, c uint64 }
 		var probes []probe
-		for i := 0; i < 2 && i < len(sl); i++ {
+		nSeriesProbes := 2
+		if skip {
+			nSeriesProbes = 3
+		}
+		for i := 0; i < nSeriesProbes && i < len(sl); i++ {
 			probes = append(probes, probe{sl[i], 0})
 		}
-		if !skip {
+		if skip {
+			// no chunks are returned, so no chunk limit may reject or change the answer; combined with a
+			// series limit the series limit alone decides
+			probes = append(probes, probe{0, uint64(1 + rng.Intn(3))})
+			if len(sl) > 3 {
+				probes = append(probes, probe{sl[3], 1})
+			}
+		} else {
 			for i := 0; i < 2 && i < len(cl); i++ {
 				probes = append(probes, probe{0, cl[i]})
 			}
@@ -156,6 +169,12 @@ func vfc09RunFixture(t *testing.T, r *vfkit.Run, c int, rng *rand.Rand, nReq int
 			if testutil.ToFloat64(st.metrics.lazyExpandedPostingsCount) > lazyBefore {
 				lazy = "on"
 				r.Count("limited_calls_with_lazy_expanded_postings", 1)
+			}
+			if skip {
+				r.Count("limited_calls_skipchunks_lazy_"+lazy, 1)
+				if p.s > 0 && uint64(truth.series) > p.s {
+					r.Count("limited_calls_skipchunks_series_limit_exceeded_lazy_"+lazy, 1)
+				}
 			}
 			if truth.series > 0 {
 				r.Distinct(fmt.Sprintf("%d|%s|%d|%d|%v|%d|%d", c, vfc07MatchersString(ms), mint, maxt, skip, p.s, p.c))
